@@ -166,47 +166,51 @@ func observeReal(cfg config) (rec, error) {
 				ps = append(ps, probe{typ, name, fmt.Sprintf("_PROBE.%d", n)})
 			}
 		}
-		for _, p := range ps {
-			subj := p.typ + "." + p.name
-			if p.typ == "call" || p.typ == "auth" {
-				subj += ".m"
+		runProbes := func(round string) {
+			mc := mc
+			for _, p := range ps {
+				subj := p.typ + "." + p.name
+				if p.typ == "call" || p.typ == "auth" {
+					subj += ".m"
+				}
+				mc.PublishRequest(subj, p.inbox+round, nil)
 			}
-			mc.PublishRequest(subj, p.inbox, nil)
-		}
-		mc.Flush()
-		// wait until the service has processed everything it received and nothing new has arrived
-		// (requests or replies) for a while
-		quiet := func() (int64, int64, int) {
+			mc.Flush()
+			// wait until the service has processed everything it received and nothing new has arrived
+			// (requests or replies) for a while
+			quiet := func() (int64, int64, int) {
+				mu.Lock()
+				defer mu.Unlock()
+				n := 0
+				for _, c := range replies {
+					n += c
+				}
+				return atomic.LoadInt64(&recv), atomic.LoadInt64(&done2), n
+			}
+			lastChange := time.Now()
+			pr, pd, pn := quiet()
+			for deadline := time.Now().Add(8 * time.Second); time.Now().Before(deadline); {
+				time.Sleep(5 * time.Millisecond)
+				r, d, n := quiet()
+				if r != pr || d != pd || n != pn {
+					pr, pd, pn = r, d, n
+					lastChange = time.Now()
+				}
+				if r == d && time.Since(lastChange) > 250*time.Millisecond {
+					break
+				}
+			}
+			if os.Getenv("VERIF_SUBS_DEBUG") != "" {
+				r, d, n := quiet()
+				fmt.Printf("realnats %+v: %d probes sent, service received %d, processed %d, replies %d\n", cfg, len(ps), r, d, n)
+			}
 			mu.Lock()
-			defer mu.Unlock()
-			n := 0
-			for _, c := range replies {
-				n += c
+			for _, p := range ps {
+				probes = append(probes, []interface{}{core.Chars(p.typ), core.Chars(p.name), replies[p.inbox+round]})
 			}
-			return atomic.LoadInt64(&recv), atomic.LoadInt64(&done2), n
+			mu.Unlock()
 		}
-		lastChange := time.Now()
-		pr, pd, pn := quiet()
-		for deadline := time.Now().Add(8 * time.Second); time.Now().Before(deadline); {
-			time.Sleep(5 * time.Millisecond)
-			r, d, n := quiet()
-			if r != pr || d != pd || n != pn {
-				pr, pd, pn = r, d, n
-				lastChange = time.Now()
-			}
-			if r == d && time.Since(lastChange) > 250*time.Millisecond {
-				break
-			}
-		}
-		if os.Getenv("VERIF_SUBS_DEBUG") != "" {
-			r, d, n := quiet()
-			fmt.Printf("realnats %+v: %d probes sent, service received %d, processed %d, replies %d\n", cfg, len(ps), r, d, n)
-		}
-		mu.Lock()
-		for _, p := range ps {
-			probes = append(probes, []interface{}{core.Chars(p.typ), core.Chars(p.name), replies[p.inbox]})
-		}
-		mu.Unlock()
+		runProbes("")
 		// restart the server: the service reconnects and announces itself again
 		mc.Close()
 		srv.Shutdown()
@@ -231,6 +235,8 @@ func observeReal(cfg config) (rec, error) {
 		}
 		mc.Flush()
 		time.Sleep(30 * time.Millisecond)
+		// the same probes after the reconnect: the subscriptions are what they were
+		runProbes(".r2")
 		s.Shutdown()
 	}
 	if !returned {
